@@ -35,7 +35,8 @@ ASSUMPTIONS = []
 def cases(rng, tier):
     out = []
     for i in range(2500 if tier == "quick" else 40000):
-        prog = proggen.gen_resample_program(rng) if i % 10 == 9 else proggen.gen_program(rng, rng.randint(1, 10), chain=(i % 4 == 3))
+        prog = (proggen.gen_resample_program(rng) if i % 10 == 9 else proggen.gen_empty_selection_program(rng) if i % 10 == 4 else
+                proggen.gen_program(rng, rng.randint(1, 10), chain=(i % 4 == 3)))
         out.append({"prog": prog, "variant": rng.randint(0, 29)})
     return out
 
